@@ -489,7 +489,10 @@ def main():
                 while not tally.fails and time.time() - t1 < cfg.get("search_s", 120):
                     k += 1
                     for suite in cfg["suites"]:
-                        o, v = run_ops(pid, suite + f"-search{k}", ["run", suite, "quick", str(a.seed + 7919 * k)])
+                        if suite in cfg.get("runners", {}):
+                            o, v = run_external(pid, suite, cfg["runners"][suite], "quick", a.seed + 7919 * k)
+                        else:
+                            o, v = run_ops(pid, suite + f"-search{k}", ["run", suite, "quick", str(a.seed + 7919 * k)])
                         tally.feed(o, v, keep_samples=0)
     except (RuntimeError, subprocess.TimeoutExpired) as e:
         log(f"machinery failure: {e}")
